@@ -36,15 +36,16 @@ type tierCfg struct {
 }
 
 type harnessSpec struct {
-	Func      string   `json:"func"`
-	Pkg       string   `json:"pkg"`
-	Reach     []string `json:"reach"` // witnesses that must be reached on at least one path
-	Quick     tierCfg  `json:"quick"`
-	Thorough  tierCfg  `json:"thorough"`
-	About     string   `json:"about"`
-	Bounds    string   `json:"bounds"`
-	NoReplay  bool     `json:"no_replay"`
-	FakeClock bool     `json:"fake_clock"` // native replay inside a testing/synctest bubble (built with go1.26.8) // counterexamples cannot be replayed natively (stated why in About)
+	Func      string            `json:"func"`
+	Pkg       string            `json:"pkg"`
+	Reach     []string          `json:"reach"` // witnesses that must be reached on at least one path
+	Quick     tierCfg           `json:"quick"`
+	Thorough  tierCfg           `json:"thorough"`
+	About     string            `json:"about"`
+	Bounds    string            `json:"bounds"`
+	NoReplay  bool              `json:"no_replay"`
+	Stubs     map[string]string `json:"stubs"`      // function -> harness replacement used by the symbolic run
+	FakeClock bool              `json:"fake_clock"` // native replay inside a testing/synctest bubble (built with go1.26.8) // counterexamples cannot be replayed natively (stated why in About)
 }
 
 type propSpec struct {
@@ -227,6 +228,7 @@ func cmdRun(id string, args []string) int {
 		if tc.TimeoutS > 0 {
 			cfg.Deadline = time.Now().Add(time.Duration(tc.TimeoutS) * time.Second)
 		}
+		cfg.Stubs = h.Stubs
 		cfg.OneShot = tc.OneShot
 		if tc.FallbackMs > 0 {
 			cfg.FallbackMs = tc.FallbackMs
